@@ -18,10 +18,14 @@
   depends on:
 
     * `flag` — the run met a shape on which the rewrite is not meaning-preserving for arbitrary
-      CLVM (pair in operator position whose operands were rewritten, quoted data reached as code,
-      legacy-integer-mode truthiness of an all-zero atom, a negative path integer);
-      the soundness theorems (Props/C02.lean) hold for every run with `flag = false`, and every
-      flag class has a kernel-checked counter-witness;
+      CLVM: a pair in operator position whose operands were rewritten, a negative path integer,
+      `(q . Integer 0)` under the legacy integer conversion — none of which arises on
+      expression-shaped code (`exprShape`; the last one is not produced by the reader or the
+      conversions the compiler uses).  The soundness theorems (Props/C02.lean) hold for every run
+      with `flag = false`; every flag class has a kernel-checked counter-witness.
+      (Three further classes existed before the `fix:` commits c770023–3 and are gone: a root
+      quote form under `Strategy23`, legacy-mode truthiness of all-zero atoms, the double-apply
+      loop re-entering quoted data.)
     * `oof`  — the fuel that bounds `remove_double_apply`'s `while` loop ran out (the driver
       supplies `rdaFuel`, which is never exhausted; the soundness theorems hold for EVERY fuel).
 
@@ -120,15 +124,24 @@ def nullOpt (m : Mode) : Rich → Bool → PR
     else nullJoin a b (isCons a && !spine) (nullOpt m a false) (nullOpt m b true)
   | r, _ => same r
 
-/-- ghost, for a ROOT call with `spine = true` (`Strategy23`): the root cell is treated as a
-    list tail although it is an expression, so a root quote form `(q . DATA)` has DATA's
-    elements rewritten as code, and a pair-headed root has its operands rewritten. -/
-def nullRootFlag (r : Rich) : Bool := isQuoted r || (match r with | .cons a _ => isCons a | _ => false)
+/-- `null_optimization_of_expression` (above22.rs): the code handed to `Strategy23`'s post-codegen
+    hooks is an EXPRESSION, while `null_optimization(_, true)` treats its argument as a list tail;
+    a quote form is left alone (its contents are data). -/
+def nullOfExpression (m : Mode) (r : Rich) : PR :=
+  if isQuoted r then same r else nullOpt m r true
 
-/-- `null_optimization(root, spine)` as called by the strategies, with the root ghost flag. -/
+/-- ghost, for the `Strategy23` root call: the root cell is still treated as a list tail, so a
+    PAIR-headed root has its operands rewritten (clvmr does not evaluate them). -/
+def nullRootFlag (r : Rich) : Bool := match r with | .cons a _ => isCons a | _ => false
+
+/-- `null_optimization` as the strategies call it, with the root ghost flag:
+    `spine = false` — `ExistingStrategy`: `null_optimization(root, false)`;
+    `spine = true`  — `Strategy23`: `null_optimization_of_expression(root)`. -/
 def nullPass (m : Mode) (r : Rich) (spine : Bool) : PR :=
-  match nullOpt m r spine with
-  | ⟨c, o, f, oo⟩ => ⟨c, o, f || (spine && c && nullRootFlag r), oo⟩
+  if spine then
+    ⟨(nullOfExpression m r).changed, (nullOfExpression m r).out,
+     (nullOfExpression m r).flag || ((nullOfExpression m r).changed && nullRootFlag r), false⟩
+  else nullOpt m r false
 
 -- ---------------------------------------------------------------------------------------
 -- the three root rewrites of double_apply.rs
@@ -149,11 +162,22 @@ def changeApplyDoubleQuote : Rich → Bool × Rich
     else (false, .cons h (.cons (.cons q (.cons one body)) t))
   | r => (false, r)
 
+/-- `truthy_when_converted` (clvm.rs): truthiness of a constant as CLVM's `i` sees it once
+    `convert_to_clvm_rs` has converted it — every non-empty atom is true; `Integer 0` is the empty
+    atom only under the fixed integer conversion. -/
+def truthyWhenConverted (m : Mode) : Rich → Bool
+  | .cons _ _ => true
+  | .nil => false
+  | .atom a => !a.isEmpty
+  | .qstr _ a => !a.isEmpty
+  | .int i => !m || i != 0
+
 /-- the `Option<bool>` computed inside `collapse_constant_condition` from the condition:
-    `(q . X)` ⇒ `Some(truthy(X))`; otherwise `Some(false)` when `!truthy(cond)`, else `None`. -/
+    `(q . X)` ⇒ `Some(truthy_when_converted(X))`; otherwise `Some(false)` when `!truthy(cond)`,
+    else `None`. -/
 def constCond (m : Mode) (cond : Rich) : Option Bool :=
   match cond with
-  | .cons h x => if isAtomValue [1] h then some (Step.truthy m x) else
+  | .cons h x => if isAtomValue [1] h then some (truthyWhenConverted m x) else
       (if !Step.truthy m (.cons h x) then some false else none)
   | c => if !Step.truthy m c then some false else none
 
@@ -171,34 +195,23 @@ def collapseConstantCondition (m : Mode) : Rich → Bool × Rich
 /-- CLVM truthiness of the converted value: not the empty atom. -/
 def clvmTruthy (m : Mode) (x : Rich) : Bool := !Val.nilp (toClvm m x)
 
-/-- decidable side condition of `collapse_constant_condition`: a QUOTED condition's `truthy`
-    agrees with CLVM truthiness of what it is converted to.  Always true in the fixed integer
-    mode; false in the legacy mode exactly for a non-empty all-zero atom / string and `Integer 0`. -/
-def collapseSafe (m : Mode) : Rich → Bool
-  | .cons h (.cons (.cons qh x) (.cons _ (.cons _ _))) =>
-    if isAtomValue [3] h && isAtomValue [1] qh then Step.truthy m x == clvmTruthy m x else true
-  | _ => true
-
 /-- the chain `change_apply_double_quote` → `change_double_to_single_apply` →
-    `collapse_constant_condition` applied at an expression root (`spine`), with the ghost flag. -/
+    `collapse_constant_condition` applied at an expression root (`spine`); all three are sound on every input (no ghost flag). -/
 def rootRewrites (m : Mode) (spine : Bool) (x : Rich) : PR :=
   if spine then
     ⟨(changeApplyDoubleQuote x).1 || (changeDoubleToSingleApply (changeApplyDoubleQuote x).2).1 ||
        (collapseConstantCondition m (changeDoubleToSingleApply (changeApplyDoubleQuote x).2).2).1,
      (collapseConstantCondition m (changeDoubleToSingleApply (changeApplyDoubleQuote x).2).2).2,
-     !collapseSafe m (changeDoubleToSingleApply (changeApplyDoubleQuote x).2).2,
-     false⟩
+     false, false⟩
   else same x
 
 -- ---------------------------------------------------------------------------------------
 -- remove_double_apply
 -- ---------------------------------------------------------------------------------------
 
-/-- ghost: a loop iteration at an expression root whose operands are not code — a quote form
-    (only reachable from the second iteration on: a rewrite produced `(q . DATA)` and the loop
-    goes round again without re-checking) or a pair-headed form. -/
-def rdaShapeFlag (spine : Bool) (a b : Rich) : Bool :=
-  spine && (isQuoted (.cons a b) || isCons a)
+/-- ghost: a loop iteration at an expression root that is pair-headed (its operands are not
+    evaluated by clvmr, yet they are rewritten). -/
+def rdaShapeFlag (spine : Bool) (a _b : Rich) : Bool := spine && isCons a
 
 mutual
 /-- `remove_double_apply(sexp, spine)`; here `spine = true` means EXPRESSION position
@@ -212,6 +225,8 @@ def rda (m : Mode) : Nat → Rich → Bool → PR
 def rdaLoop (m : Mode) : Nat → Rich → Bool → Bool → Bool → Bool → PR
   | 0, s, _, was, fl, _ => ⟨was, s, fl, true⟩
   | f+1, .cons a b, spine, was, fl, oo =>
+    -- `if spine && was_transformed { if quoted { break } }`: a rewrite may have produced a quote form
+    if spine && was && isQuoted (.cons a b) then ⟨was, .cons a b, fl, oo⟩ else
     let ra := rda m f a true
     let rb := rda m f b false
     let root := rootRewrites m spine (.cons ra.out rb.out)
